@@ -4,7 +4,7 @@ import PyramidModel.Security
 in : {"pre":[view…], "stmts":[stmt…], "deny":[[ctx,perm],…], "excsro":[[kind,[cls,…]],…],
       "req":{"ctx","sro","ifaces","excifaces","wrapifaces","name","preds"}, "probe":{"kind":"router"|"render"|"vep","secure":b}}
      stmt = {"k":"policy","legacy":b} | {"k":"defperm","perm":P} | {"k":"view","dir":n, …view} | {"k":"other","phase":n}
-     view = {"tag","name","route","cls","isexc","exconly","perm":P,"order","preds","wrapper":null|n,"act"}
+     view = {"tag","name","route","cls","isexc","exconly","perm":P,"order","preds","wrapper":null|n,"act"[,"vdown":[P],"vdbase":[P]]}
      P = null | "npr" | n
 out: {"trace":[["p",ctx,perm,ans] | ["b",tag,ctx] | ["x",kind]], "out":["resp",tag]|["none"]|["raised",k]|["perm",b]|["mismatch"],
       "guards":[[tag,exc,guard|null],…], "exec":[phase…], "chain":[names]} -/
@@ -33,7 +33,13 @@ def parseView (j : Json) : Except String ViewStmt := do
     | .null => pure none
     | x => do let n : Nat ← fromJson? x; pure (some n)
   let act : Nat ← getAs j "act"
-  pure { tag, name, route, ctxClass := cls, isExcCtx := isexc, excOnly := exconly, perm, order, preds, wrapper, act }
+  let vd := fun (k : String) => (match j.getObjVal? k with
+    | .ok (.arr #[x]) => do let p ← parsePerm x; pure (some p)
+    | _ => pure none : Except String (Option PermArg))
+  let vdOwn ← vd "vdown"
+  let vdBase ← vd "vdbase"
+  pure { tag, name, route, ctxClass := cls, isExcCtx := isexc, excOnly := exconly, perm, order, preds, wrapper, act,
+         vdOwn, vdBase }
 
 def parseStmt (j : Json) : Except String Stmt := do
   let k : String ← getAs j "k"
